@@ -13,6 +13,7 @@ halmos reported.
 from __future__ import annotations
 
 import ast
+import contextlib
 import glob
 import itertools
 import json
@@ -70,6 +71,49 @@ REPLY_BY_CLASS = {"c": ["sat", "sat", "sat_abstract", "sat_rc"], "u": ["unsat", 
                   "t": ["unknown", "unknown", "timeout", "unknown_rc"], "f": ["garbage", "garbage", "empty", "exit", "binary"]}
 EXIT_NAME = {0: "PASS", 1: "COUNTEREXAMPLE", 2: "TIMEOUT", 3: "STUCK", 4: "REVERT_ALL", 5: "EXCEPTION"}
 SPEC_CLASS = {0: "pass", 1: "fail", 2: "timeout", 3: "error", 4: "error", 5: "error"}
+
+class _Lean:
+    """one `lake env lean --run Driver/Verdict.lean` process for the whole check (the driver answers line by line and flushes);
+    falls back to the runner's batch driver if the process cannot be used"""
+
+    proc = None
+
+    @classmethod
+    def ask(cls, ctx, lines):
+        if not lines:
+            return []
+        import subprocess
+        from vlib.runner import LEAN
+        try:
+            if cls.proc is None or cls.proc.poll() is not None:
+                cls.proc = subprocess.Popen(["lake", "env", "lean", "--run", "Driver/Verdict.lean"], cwd=LEAN, text=True,
+                                            stdin=subprocess.PIPE, stdout=subprocess.PIPE, stderr=subprocess.DEVNULL)
+            out = []
+            for line in lines:
+                cls.proc.stdin.write(line + "\n")
+                cls.proc.stdin.flush()
+                while True:
+                    r = cls.proc.stdout.readline()
+                    if not r:
+                        raise OSError("driver closed its output")
+                    if not r.startswith("WARNING"):
+                        break
+                out.append(r.rstrip("\n"))
+            return out
+        except (OSError, ValueError):
+            with contextlib.suppress(Exception):
+                cls.proc.kill()
+            cls.proc = None
+            return _Lean.ask(ctx, lines)
+
+    @classmethod
+    def close(cls):
+        if cls.proc is not None:
+            with contextlib.suppress(Exception):
+                cls.proc.stdin.close()
+                cls.proc.wait(timeout=10)
+            cls.proc = None
+
 
 _H = {}
 
@@ -605,7 +649,7 @@ class Pending:
 def judge(ctx, pend: Pending):
     if not pend.lines:
         return
-    rep = ctx.lean("Verdict").ask(pend.lines)
+    rep = _Lean.ask(ctx, pend.lines)
     mismatches = []
     for case, obs, origin, ix in pend.items:
         m1, m0, mb, spec = rep[ix], rep[ix + 1], rep[ix + 2], rep[ix + 3]
@@ -769,7 +813,7 @@ def unit_from_result(ctx, lits):
             real.append((got, text, rc, cache))
             fl = text.split("\n", 1)[0]
             ctx.count("from_result:first-line:" + (fl if fl in ("sat", "unsat", "unknown", "") else "other"))
-        rep = ctx.lean("Verdict").ask(lines)
+        rep = _Lean.ask(ctx, lines)
         for (got, text, rc, cache), want in zip(real, rep):
             ctx.case(("fr", text, rc, cache), nontrivial=True)
             fl = text.split("\n", 1)[0]
@@ -829,7 +873,7 @@ def unit_get_solver_output(ctx):
             real.append((name, shut, kind))
             ctx.case(("gso", name, shut), nontrivial=True)
             ctx.count("get_solver_output:" + ("shutdown" if shut else "live"))
-    rep = ctx.lean("Verdict").ask(lines)
+    rep = _Lean.ask(ctx, lines)
     for (name, shut, kind), want in zip(real, rep):
         if kind != want.split(":")[0]:
             spec_kind = "err" if (shut or name in excs or name == "err") else name.rstrip("01").replace("_to", "")
@@ -923,7 +967,7 @@ def run_main_case(mc):
 
 def main_level(ctx, lits):
     rng = ctx.rng
-    n = ctx.scale(28, 400)
+    n = ctx.scale(18, 400)
     lines, items = [], []
     for _ in range(n):
         mc = gen_main_case(rng, lits)
@@ -959,7 +1003,7 @@ def main_level(ctx, lits):
         ctx.case(("main", json.dumps(mc, sort_keys=True)), nontrivial=bool(selected))
         ctx.count(f"main:contracts={len(mc['contracts'])}:select={mc['select']}")
         ctx.count(f"main:exit={run.exitcode}")
-    rep = ctx.lean("Verdict").ask(lines)
+    rep = _Lean.ask(ctx, lines)
     spec_lines, spec_items = [], []
     for mc, exitcode, by, per, ix, stdout in items:
         statuses = ""
@@ -994,7 +1038,7 @@ def main_level(ctx, lits):
         else:
             spec_lines.append("specexit " + (statuses or "-"))
             spec_items.append((mc, exitcode, statuses, want_exit, False))
-    rep2 = ctx.lean("Verdict").ask(spec_lines)
+    rep2 = _Lean.ask(ctx, spec_lines)
     for (mc, exitcode, statuses, want_exit, model_bad), spec_exit in zip(spec_items, rep2):
         if str(exitcode) != spec_exit:
             ctx.violation(f"exit-code:{exitcode}-where-spec-says-{spec_exit}:{''.join(sorted(set(statuses))) or 'none-selected'}",
@@ -1223,7 +1267,7 @@ def parallel_paths_stage(ctx):
                 combos.append((a, b, third, cache, order))
     rng.shuffle(combos)
     combos.sort(key=lambda c: (not c[3], c[4] is not None))   # cache on + one thread first
-    for a, b, third, cache, order in combos[: ctx.scale(9, len(combos))]:
+    for a, b, third, cache, order in combos[: ctx.scale(6, len(combos))]:
         replies = {str(a): rng.choice(["unsat", "unsat_rc"]), str(b): rng.choice(["sat", "sat_rc"]),
                    str(third): rng.choice(["unsat", "unknown", "unsat"])}
         for first in ((a, b), (b, a)) if order else ((None, None),):
@@ -1254,20 +1298,99 @@ def parallel_paths_stage(ctx):
                               {"kind": "parallel", "pc": pc})
 
 
+KEY_STALE = "dump-smt-directory:solver-ran-on-a-stale-query-file-of-another-test"
+MARK_UNSAT, MARK_SAT = 0xA11CE, 0xB0B5   # the stub answers from the CONTENT of the file it is given: which constant is compared
+
+
+def marker_contract(name, mark, fn="check_foo"):
+    art = H()["art"]
+    x = asm.calldata_arg(0)
+    return art.TestContract(name, [art.Fn(f"{fn}(uint256 x, uint256 y)", asm.if_then(asm.eq_const(x, mark), asm.panic(1)))])
+
+
+def marker_script(s):
+    s.rule({"regex": rf"\(_ bv{MARK_UNSAT} 256\)"}, reply="unsat")
+    s.rule({"regex": rf"\(_ bv{MARK_SAT} 256\)"}, reply="sat", model={"p_x_uint256": MARK_SAT})
+    s.default(reply="garbage", stdout="stub: unexpected query\n")
+    s.write()
+
+
+def stale_dump_stage(ctx):
+    """--dump-smt-directory: <dir>/<function name>/<path id>.smt2 is shared by same-named tests of different contracts and by
+    consecutive runs. Each test must be judged on ITS OWN queries: the stub answers unsat / sat according to the constant
+    compared in the file it receives, so a solver run on a stale file yields the other test's answer."""
+    h = H()
+    art, stub = h["art"], h["stub"]
+    want_code = {MARK_UNSAT: 0, MARK_SAT: 1}      # own outcomes [s, vu] -> PASS ; [s, vc] -> FAIL
+
+    def report(where, test, mark, code, extra):
+        spec = "pass" if mark == MARK_UNSAT else "fail"
+        ctx.count(f"stale-dump:{where}:{EXIT_NAME.get(code, code)}")
+        if code != want_code[mark]:
+            ctx.violation(f"{KEY_STALE}:{EXIT_NAME.get(code, code)}-where-property-says-{spec.upper()}",
+                          f"{where}: {test} compares x with {mark:#x}; the solver's answer for that query is "
+                          f"{'unsat' if mark == MARK_UNSAT else 'sat'}, so its own outcomes give {spec.upper()}, but halmos reports "
+                          f"{EXIT_NAME.get(code, code)} ({extra})", {"kind": "stale", "where": where, "marks": extra})
+
+    # (a) one run of _main, two contracts that both define check_foo (same dump sub-directory, same path ids)
+    for marks in ((MARK_UNSAT, MARK_SAT), (MARK_SAT, MARK_UNSAT)):
+        tmp = tempfile.mkdtemp(prefix="verif_c05s_")
+        try:
+            with stub.Script(tmp) as s:
+                marker_script(s)
+                run = art.run_main_offline([marker_contract("A", marks[0]), marker_contract("B", marks[1])],
+                                           solver_command=s.command, solver_threads=1)
+        finally:
+            shutil.rmtree(tmp, ignore_errors=True)
+        got = {path.split(":")[-1]: rs[0].exitcode for path, rs in (run.test_results or {}).items() if rs}
+        if set(got) != {"A", "B"}:
+            raise RuntimeError(f"harness: expected results for contracts A and B, got {got}\n{run.stdout[-800:]}")
+        ctx.case(("stale-main", marks), nontrivial=True)
+        for cname, mark in zip("AB", marks):
+            report("two contracts, same test name, one run", f"{cname}.check_foo", mark, got[cname], f"marks={[hex(m) for m in marks]}")
+        want_exit = 1 if MARK_SAT in marks else 0
+        if run.exitcode != want_exit:
+            ctx.violation(f"{KEY_STALE}:exit-code-{run.exitcode}-where-property-says-{want_exit}",
+                          f"_main exit code {run.exitcode} for tests {got}; a selected test has a counterexample",
+                          {"kind": "stale", "where": "main", "marks": [hex(m) for m in marks]})
+
+    # (b) a second run into the same directory after the code changed
+    for marks in ((MARK_UNSAT, MARK_SAT), (MARK_SAT, MARK_UNSAT)):
+        tmp = tempfile.mkdtemp(prefix="verif_c05s_")
+        try:
+            with stub.Script(tmp) as s:
+                marker_script(s)
+                codes = []
+                for mark in marks:
+                    run = art.run_contract_offline(marker_contract("A", mark), solver_command=s.command, solver_threads=1, workdir=tmp)
+                    codes.append(run.results[0].exitcode if len(run.results) == 1 else None)
+        finally:
+            shutil.rmtree(tmp, ignore_errors=True)
+        ctx.case(("stale-rerun", marks), nontrivial=True)
+        for i, (mark, code) in enumerate(zip(marks, codes)):
+            report(f"run #{i + 1} into the same --dump-smt-directory", "A.check_foo", mark, code, f"marks={[hex(m) for m in marks]}")
+
+
 def correspond(ctx):
     rng = ctx.rng
     lits = harvest_literals()
     ctx.note(f"harvested literals (±1): {lits}")
     failures = []   # model/implementation mismatches: every stage still runs (a concrete violation may be in a later one)
 
+    timing = {}
+
     def stage(name, fn):
+        t = time.time()
         try:
             fn()
         except RuntimeError as e:
             failures.append(f"[{name}] {e}")
+        finally:
+            timing[name] = round(time.time() - t, 1)
+            ctx.extra["stage_seconds"] = timing
 
     # the harness' witnesses are the scenarios of the Lean `_cex` theorems
-    same = ctx.lean("Verdict").ask(witness_same_lines())
+    same = _Lean.ask(ctx, witness_same_lines())
     if any(s != "ok true" for s in same):
         raise RuntimeError(f"witness scenarios differ from Model.VerdictWitness: {same}")
 
@@ -1276,7 +1399,9 @@ def correspond(ctx):
     stage("parse_unsat_core", lambda: unit_parse_unsat_core(ctx))
     stage("real-yices", lambda: real_yices_cases(ctx))
     stage("parallel-paths", lambda: parallel_paths_stage(ctx))
+    stage("stale-dump", lambda: stale_dump_stage(ctx))
 
+    t_e2e = time.time()
     pend = Pending()
     # 0. corpus + witnesses of the `_cex` theorems
     for case in corpus_cases():
@@ -1292,17 +1417,17 @@ def correspond(ctx):
             if name != "race" or (len(pend.items) > before and pend.items[-1][1]["code"] == 5):
                 break
     # 0b. empty / absent unsat core followed (and preceded) by a valid counterexample, cache on, one solver thread
-    for _ in range(ctx.scale(8, 80)):
+    for _ in range(ctx.scale(6, 80)):
         run_and_queue(ctx, pend, gen_empty_core_case(rng, lits), "empty-core")
         ctx.count("empty-core-then-sat")
 
     # 0c. multi-line (wrapped) unsat cores on paths with 21-40 conditions, then / before a sat sibling
-    for _ in range(ctx.scale(8, 80)):
+    for _ in range(ctx.scale(6, 80)):
         run_and_queue(ctx, pend, gen_wrapped_core_case(rng, lits), "wrapped-core")
         ctx.count("wrapped-core-then-sat")
 
     # 1. systematic: every assignment of kinds to <= 2 paths (quick) / <= 3 (thorough), one random reply/schedule each
-    t_budget = ctx.scale(50, 900)
+    t_budget = ctx.scale(40, 900)
     t0 = time.time()
     small = list(all_K(ctx.scale(2, 3)))
     rng.shuffle(small)
@@ -1332,10 +1457,12 @@ def correspond(ctx):
             if any(CLASS[k] == "potential" and any(CLASS[k2] == "stuck" for k2 in K[j + 1:]) for j, k in enumerate(K)):
                 break
         run_and_queue(ctx, pend, gen_case(rng, K, lits, force_race=True), "race", retries=2)
-    stage("end-to-end", lambda: judge(ctx, pend))
+    timing["end-to-end runs"] = round(time.time() - t_e2e, 1)
+    stage("end-to-end judge (Lean)", lambda: judge(ctx, pend))
 
     # 4. whole process
     stage("main", lambda: main_level(ctx, lits))
+    _Lean.close()
     if failures:
         raise RuntimeError(f"{len(failures)} stage(s) with model/implementation mismatches: " + " || ".join(f[:1500] for f in failures))
 
@@ -1344,7 +1471,7 @@ def replay(ctx, data) -> bool:
     r = data.get("replay", data)
     if r.get("kind") == "e2e":
         case = r["case"]
-        spec = ctx.lean("Verdict").ask(["spec " + spec_outcomes(case)])[0]
+        spec = _Lean.ask(ctx, ["spec " + spec_outcomes(case)])[0]
         for _ in range(6):   # the outcome of killing a running solver is itself a race: try a few times
             obs = run_real(case)
             if not realized(case, obs):
@@ -1373,6 +1500,13 @@ def replay(ctx, data) -> bool:
         want = fl if fl in ("sat", "unsat", "unknown") else "err"
         print(f"from_result({r['text']!r}, rc={r['rc']}) -> {kind}; expected {want}")
         return kind != want or (kind == "sat" and so.model.is_valid != ("f_evm_" not in r["text"]))
+    if r.get("kind") == "stale":
+        sub = SimpleNamespace(violations=[], count=lambda *a, **k: None, case=lambda *a, **k: None)
+        sub.violation = lambda key, what, rep: sub.violations.append((key, what))
+        stale_dump_stage(sub)
+        for key, what in sub.violations:
+            print(key, "—", what)
+        return bool(sub.violations)
     if r.get("kind") == "parallel":
         code, info, done, run = run_parallel(r["pc"])
         print(f"halmos reports {EXIT_NAME.get(code, code)}; completion order {done}; queries sent to the solver: {sorted(info)}; the property says FAIL")
@@ -1396,7 +1530,7 @@ def replay(ctx, data) -> bool:
             for ti, t in enumerate(c["tests"]):
                 if mc["select"] == "all" or (mc["select"] == "one" and ci == 0 and ti == 0):
                     statuses += {"pass": "p", "fail": "f", "error": "e", "timeout": "t"}[SPEC_CLASS[by[t["fn"]]]] if t["fn"] in by else "n"
-        spec_exit = ctx.lean("Verdict").ask(["specexit " + (statuses or "-")])[0]
+        spec_exit = _Lean.ask(ctx, ["specexit " + (statuses or "-")])[0]
         print(f"_main exit code {run.exitcode}; selected tests {statuses or '(none)'}; the property says {spec_exit}")
         print(run.stdout[-800:])
         return str(run.exitcode) != spec_exit
